@@ -30,8 +30,12 @@ class MiniLoop(asyncio.AbstractEventLoop):
     def run_one(self):
         h = self.ready.popleft()
         if not h.cancelled:
-            if h.ctx is not None: h.ctx.run(h.cb, *h.args)
-            else: h.cb(*h.args)
+            try:
+                if h.ctx is not None: h.ctx.run(h.cb, *h.args)
+                else: h.cb(*h.args)
+            except Exception as e:
+                # asyncio logs an exception raised by a callback and carries on
+                self.exc.append({'message': 'exception in callback', 'exception': e})
     def run_ready(self, limit=10000):
         n = 0
         while self.ready and n < limit:
